@@ -261,7 +261,7 @@ def when_all(ctx):
       zero = has(fs, '%s[0]==0' % cell, True)
       if zero:
         di = [i for i, e in enumerate(ev) if decs and e is decs[0]]
-        zi = [i for i, e in enumerate(ev) if e.kind == 'cond' and ('%s[0]==0' % cell, True) in FACTS([e])]
+        zi = [i for i, e in enumerate(ev) if e.kind == 'cond' and (('%s[0]==0' % cell, True) in FACTS([e]) or (resolved_text(ev, i, e.node) == '%s[0]==0' % cell and e.info))]
         wi = [i for i, e in enumerate(ev) if wr and e is wr[0]]
         si = [i for i, e in enumerate(ev) if e.kind == 'call' and sets and e.node is sets[0]]
         ok = len(sets) == 1 and U(sets[0].args[0]) == res and di and zi and wi and si and di[0] < zi[0] and wi[0] < si[0]
